@@ -32,6 +32,7 @@ BUDGET = {"quick": 300, "thorough": 3000}
 CFG = tuple(os.environ.get("VERIF_CFG", "asan").split(","))
 STD = {128: "1.2.112.0.2.0.34.101.45.3.1", 192: "1.2.112.0.2.0.34.101.45.3.2", 256: "1.2.112.0.2.0.34.101.45.3.3"}
 CERTVAL, CH_READ, CH_WRITE = Sym("x_bake_certval"), Sym("x_ch_read"), Sym("x_ch_write")
+CERTVAL2 = Sym("x_bake_certval2")
 OK = 0
 
 # (proto, kca, kcb) admitted by the headers: BSTS demands kca == kcb == TRUE (bake.h), BAUTH demands kca == TRUE (btok.h)
@@ -75,7 +76,7 @@ def mk_env(x, c):
     M = RB.std_params(l)
     q, p, no = M["q"], M["p"], l // 4
     sd = c["seed"]
-    env = {"c": c, "l": l, "M": M, "q": q, "p": p, "no": no, "proto": c["proto"], "kca": bool(c["kca"]), "kcb": bool(c["kcb"]), "sd": sd, "shared": bool(c.get("shared"))}
+    env = {"c": c, "l": l, "M": M, "q": q, "p": p, "no": no, "proto": c["proto"], "kca": bool(c["kca"]), "kcb": bool(c["kcb"]), "sd": sd, "shared": bool(c.get("shared")), "fmt2": bool(c.get("fmt2"))}
 
     def scal(tag):
         return int.from_bytes(expand(sd + tag, no + 8), "little") % (q - 1) + 1
@@ -90,6 +91,9 @@ def mk_env(x, c):
             d = scal("d" + r)
             env["d" + r] = d
             env["cert" + r] = expand(sd + "n" + r, c["n" + r]) + RB.point_to_octets(M, RB.pubkey_calc(M, d))
+            if r == "b" and c.get("fmt2"):
+                # B's certificate in a second format with a validator of its own: public key first, name, marker octet
+                env["certb"] = RB.point_to_octets(M, RB.pubkey_calc(M, d)) + expand(sd + "nb", c["nb"]) + b"\xA5"
         if env["proto"] == "BSTS":
             # the channel convention of the test suite cannot express a message whose length is a multiple of the 512-octet read block
             if (3 * no + len(env["certa"]) + 8) % 512 == 0:
@@ -200,9 +204,9 @@ def do_run(x, env, mitm=None, ov=None):
     pr, no, kca, kcb, P = env["proto"], env["no"], env["kca"], env["kcb"], env["P"]
     res = {"steps": [], "fail": None, "msgs": [], "keya": None, "keyb": None}
 
-    def mkcert(data):
+    def mkcert(data, who="a"):
         C = pool.out(env["sizes"][1])
-        x.call("x_bake_cert", C, pool.buf(data), len(data), ret="v")
+        x.call("x_bake_cert2" if (who == "b" and env["fmt2"]) else "x_bake_cert", C, pool.buf(data), len(data), ret="v")
         return C
 
     def done(fn, r):
@@ -226,9 +230,9 @@ def do_run(x, env, mitm=None, ov=None):
             peer = None
         else:
             d = ov.get("d" + role, env["d" + role])
-            r = x.call(fn, state, P, S, pool.buf(d.to_bytes(no, "little")), mkcert(ov.get("cert" + role, env["cert" + role])))
+            r = x.call(fn, state, P, S, pool.buf(d.to_bytes(no, "little")), mkcert(ov.get("cert" + role, env["cert" + role]), role))
             o = "b" if role == "a" else "a"
-            peer = mkcert(ov.get("cert%s@%s" % (o, role), env["cert" + o]))
+            peer = mkcert(ov.get("cert%s@%s" % (o, role), env["cert" + o]), o)
         party[role] = (state, peer)
         if done(fn + ":" + role, r):
             return res
@@ -246,7 +250,7 @@ def do_run(x, env, mitm=None, ov=None):
             out = inb = pool.buf(m + b"\xCC" * max(0, outlen - len(m)))
         args = []
         for t in tmpl:
-            args.append({"o": out, "i": (inb if inb is not None else pool.buf(m)) if t == "i" else None, "l": len(m) if m is not None else 0, "p": peer, "v": CERTVAL, "s": state}[t])
+            args.append({"o": out, "i": (inb if inb is not None else pool.buf(m)) if t == "i" else None, "l": len(m) if m is not None else 0, "p": peer, "v": CERTVAL2 if (env["fmt2"] and role == "a") else CERTVAL, "s": state}[t])
         if done(fn, x.call(fn, *args)):
             return res
         if send:
@@ -288,19 +292,19 @@ def driver_args(x, env, role, msgs, tamper=None, pool=None, secret=None):
     key = pool.out(32)
     fn = "bake%sRun%s" % (pr, role.upper())
 
-    def mkcert(data):
+    def mkcert(data, who="a"):
         C = pool.out(env["sizes"][1])
-        x.call("x_bake_cert", C, pool.buf(data), len(data), ret="v")
+        x.call("x_bake_cert2" if (who == "b" and env["fmt2"]) else "x_bake_cert", C, pool.buf(data), len(data), ret="v")
         return C
     if pr == "BPACE":
         args = [key, P, S, secret if secret is not None else pool.buf(env["pwd"]), len(env["pwd"]), CH_READ, CH_WRITE, CH]
     else:
         D = secret if secret is not None else pool.buf(env["d" + role].to_bytes(no, "little"))
-        own = mkcert(env["cert" + role])
+        own = mkcert(env["cert" + role], role)
         if pr == "BMQV":
-            args = [key, P, S, D, own, mkcert(env["cert" + ("b" if role == "a" else "a")]), CH_READ, CH_WRITE, CH]
+            args = [key, P, S, D, own, mkcert(env["cert" + ("b" if role == "a" else "a")], "b" if role == "a" else "a"), CH_READ, CH_WRITE, CH]
         else:
-            args = [key, P, S, D, own, CERTVAL, CH_READ, CH_WRITE, CH]
+            args = [key, P, S, D, own, CERTVAL2 if (env["fmt2"] and role == "a") else CERTVAL, CH_READ, CH_WRITE, CH]
     return fn, args, CH, key, outs, len(inc), pool
 
 
@@ -365,7 +369,7 @@ def run_honest(ctx, c):
                 raise Fail("%s consumed %d of %d incoming messages" % (fn, cur, ninc))
     multi = env["proto"] == "BSTS" and max(len(m) for m in res["msgs"]) > 512
     ctx.cls(env["proto"], "l%d" % env["l"], "kc%d%d" % (env["kca"], env["kcb"]), "ha_" + hcls(c["ha"]), "hb_" + hcls(c["hb"]), "drv" if drv else "steps",
-            *(["multiblock"] if multi and drv else []), *(["shared_buffer"] if env["shared"] else []))
+            *(["multiblock"] if multi and drv else []), *(["shared_buffer"] if env["shared"] else []), *(["two_cert_formats"] if env["fmt2"] and env["proto"] in ("BMQV", "BSTS") else []))
     if drv or env["kca"] != env["kcb"] or env["shared"]:
         ctx.nontrivial(base_sig(env), drv, hcls(c["ha"]), hcls(c["hb"]), tuple(c["ta"]["rej"]), tuple(c["tb"]["rej"]), c["ta"]["u"], c["tb"]["u"], multi, env["shared"])
     ctx.sample(c)
@@ -652,7 +656,7 @@ KINDS = ["oct"] * 8 + ["trunc", "trunc", "zero", "y1", "xp", "yp", "twist", "ord
 
 def tests(tier):
     name = st.one_of(st.integers(0, 20), st.integers(0, 20), st.integers(0, 20), st.integers(330, 700))
-    s_h = s_case(tier, {"drv": st.sampled_from([True, True, True, False]), "na": name, "nb": name, "shared": st.sampled_from([False, False, True])})
+    s_h = s_case(tier, {"drv": st.sampled_from([True, True, True, False]), "na": name, "nb": name, "shared": st.sampled_from([False, False, True]), "fmt2": st.sampled_from([False, False, True])})
     tam = st.fixed_dictionaries({"m": st.integers(0, 11), "f": st.integers(0, 5), "kind": st.sampled_from(KINDS), "pos": st.integers(0, 1023), "mask": st.integers(1, 255),
                                  "drv": st.sampled_from([False, True])})
     s_t = s_case(tier, {"tampers": st.lists(tam, min_size=10, max_size=10), "na": name, "nb": name})      # long certificates: altered messages on the multi-block read path of the drivers
